@@ -30,7 +30,7 @@ O["C01"] = P("proof", ["ParserRules"], T("C01", PARSE), "compound = Boolean comb
 O["C02"] = P("proof", [], T("C02"), "locality: processTree t = combine (processTree leaf) t; path stack machine = denote")
 O["C03"] = P("proof", ["OpsNumeric", "Dispatch", "TokenConsts"], T("C03"), "numeric leaves agree with the order of Q on exact models of int64/binary64")
 O["C04"] = P("proof", ["OpsString", "Dispatch", "TokenConsts"], T("C04"), "string leaves = relation on lower-cased byte strings, for every lower-casing function")
-O["C05"] = P("proof", ["G4", "ParserRules"], T("C05", merge(PARSE, LEXG)), "only sentences are evaluated: lexParse = grammar; syntax error stored by NewEvaluator and returned by Process")
+O["C05"] = P("proof", ["G4", "ParserRules", "LexerATN"], T("C05", merge(PARSE, LEXG)), "only sentences are evaluated: lexParse = grammar; syntax error stored by NewEvaluator and returned by Process")
 O["C06"] = P("proof", ["OpsSupport", "Dispatch"], T("C06"), "failure iff reached, final; mismatch never errors")
 O["C07"] = P("proof", ["Observers"], T("C07"), "panics are values in the model; every entry point total; robustness exploration in a watched child process",
              ["fatal Go runtime errors (stack exhaustion, OOM) cannot be exhibited by the model; only observed"])
@@ -42,12 +42,12 @@ O["C12"] = P("other", ["PkgState"], T("C12"), "partial: interleaving model prove
              ["Go race detector; the interleaving model treats calls on private state as atomic steps"])
 O["C13"] = P("other", ["Observers"], T("C13"), "partial: frame theorem on immutable model values + deep-snapshot correspondence (aliasing writes are not expressible in the model)")
 O["C14"] = P("proof", [], T("C14"), "three entry points are definitional wrappers in the model; correspondence side by side")
-O["C15"] = P("proof", ["G4", "ParserRules", "TokenConsts", "Dispatch"], T("C15", PARSE), "respelling invariance at token level; every spelling lexes to its kind (finite table, decide); character level by correspondence")
+O["C15"] = P("proof", ["G4", "ParserRules", "TokenConsts", "Dispatch", "LexerATN"], T("C15", PARSE), "respelling invariance at token level; every spelling lexes to its kind (finite table, decide); character level by correspondence")
 O["C16"] = P("proof", ["OpsErrMode"], T("C16"), "diagnostic iff a reached comparison is undecidable")
 O["C17"] = P("proof", [], T("C17"), "Boolean algebra laws with failures on Spec combine, transported by the refinement theorem")
 O["C18"] = P("proof", ["OpsNumeric", "OpsString", "OpsVersion", "Dispatch", "TokenConsts"], T("C18"), "each family a consistent order")
 O["C19"] = P("proof", [], T("C19"), "NestedError model: Original, Error JSON/fallback, Set override, idempotence")
-O["C20"] = P("proof", ["G4", "ParserRules", "TokenConsts"], T("C20", merge(PARSE, LEXG)), "model recogniser = documented grammar (proved); shipped generated code = model (correspondence)")
+O["C20"] = P("proof", ["G4", "ParserRules", "TokenConsts", "LexerATN"], T("C20", merge(PARSE, LEXG)), "model recogniser = documented grammar (proved); shipped generated code = model (correspondence)")
 ASSUME = {
  "all": ["the Lean model (Impl layer) is a faithful transcription of the Go code it names: validated by the correspondence of this run, not proved",
          "the value quotient of DESIGN §1 (F1) is exact while the observer set of the hand-written code is unchanged (tie Observers)",
